@@ -33,11 +33,13 @@ from vk.symnp import adj_ref, det_ref, ref_einsum
 TRUSTED = [
     "C09 composition (A6): L1-L4 + C02 (assembly is the sum over cells) + C06 (F == A) give zero residual on all interior unknowns of any mesh of valid cells in a homogeneous state; that Newton finds this solution and no other is not decided (C07 gives: what it returns is an equilibrium)",
     "C09 lemma (A6): sum over the nodes of a loaded face of the nodal forces equals P(A) N A_ref when the lateral faces are traction free (partition of unity on the face + divergence theorem)",
+    "C09 lemma (A6, divergence theorem): on a conforming patch of valid cells the exact integrals int grad_X h_a dV of an interior node's shape function sum to zero (h_a is continuous across the shared faces and vanishes on the patch boundary); with L2x (the template's rule integrates int grad_X h_a dV exactly on every admissible cell) this is the patch closure for the higher-order families on curved cells; for MINI templates the bubble function vanishes on the cell boundary, so its exact integrated gradient is zero on the cell",
     "C09: scipy.optimize.root is external: the material-level curves are verified against its contract (returns x with fun(x) == 0); existence/uniqueness of the lateral stretch is not decided",
 ]
 
 E = fem.element
 TOL = 1e-11
+FLOAT_TABLES_C09 = {"RegionQuad", "RegionHexahedron", "RegionQuadraticQuad", "RegionBiQuadraticQuad", "RegionQuadraticHexahedron", "RegionTriQuadraticHexahedron", "RegionQuadraticTetra", "RegionTetraMINI", "RegionTriangleMINI", "RegionQuadraticTriangle", "RegionTriangle", "RegionTetra"}
 
 
 def dense(vk, fn):
@@ -107,6 +109,150 @@ def cell(vk, cfg):
         vk.ensures_eq("L4/r_a==P(A).B_a", r, ref_einsum("ij,aj->ai", PA, B))
     if vk.sym:
         vk.canary("L1/B==0", B, 0 * B)
+
+
+# ------------------------------------------------------------------------------------------------
+# L2x: the template's default rule integrates the integrated shape-function gradient exactly on every cell of
+# the family (curved cells included)
+RULE_CFG = [dict(template=t, cell=("affine" if t == "RegionQuadraticTetra" else "generic")) for t in TEMPLATES if "Constant" not in t]
+
+
+def _exponents(arr, rg, ignore=()):
+    """set of exponent tuples (w.r.t. the generators rg) of the monomials of the polynomial entries of arr;
+    generators in `ignore` are parameters (coefficients)"""
+    out = set()
+    for p in np.asarray(arr, dtype=object).ravel():
+        for m in co(p).t:
+            e = [0] * len(rg)
+            for g, k in m:
+                if g in ignore and k >= 0:
+                    continue
+                if g not in rg or k < 0:
+                    raise ValueError("shape-function gradient is not a polynomial in the reference coordinates")
+                e[rg.index(g)] = k
+            out.add(tuple(e))
+    return out
+
+
+def _ground(vk, name, lhs, rhs, cfg, native, tol=Fraction(1, 10**12)):
+    """closed (variable-free) identity on the exact-rational reading of the rule's tables: |lhs - rhs| <= tol; a failing one
+    is a refutation with the native float value of the real tables as the replayed witness"""
+    d = co(lhs) - co(rhs)
+    c = d.asconst()
+    if c is None:
+        vk.ensures_eq(name, np.array(lhs), np.array(rhs))
+        return
+    ok = abs(c) <= tol
+    rep = None
+    if not ok:
+        rep = {"confirmed": True, "kind": "ground", "point": {"template": cfg["template"], "obligation": name}, "expected": float(co(rhs).asconst()), "actual": native()}
+    vk.ensures_true(name, bool(ok), f"|quadrature sum - exact integral| = {float(abs(c)):.3e} (tolerance {float(tol):.0e}, float tables read as exact rationals)", backend="exact-rational", replay=rep)
+
+
+@contract("C09", "rule_exactness", configs=RULE_CFG)
+def rule_exactness(vk, cfg):
+    """L2x: B_a = int_cell grad_X h_a dV = int_ref dh_a/dxi . adj(J) dxi is a polynomial in xi whose coefficients are
+    polynomials in the node coordinates (J = sum_b X_b (x) dh_b/dxi of the geometry element).  Every xi-monomial that
+    can occur in dh_a/dxi_i . adj(J)_ij -- products of one derivative per reference axis, the factors taken from the
+    real element's gradient evaluated at a symbolic reference point -- is integrated exactly by the template's default
+    quadrature (real scheme object).  Hence sum_q B_a,q equals the exact integral for EVERY admissible cell of the
+    family: all (curved) quad / hex families and tri6 with all nodes free, tet10 with straight edges (geometry of the
+    corner element) -- the quantifier of the property.  With the divergence theorem on a conforming patch (TRUSTED) this
+    is the patch closure for the families whose generic patch is not run algebraically in `patch_closure`."""
+    name = cfg["template"]
+    cls, el_cls, domain, space, _ = TEMPLATES[name]
+    with symnp.native():
+        q0 = _default_quadrature(cls)
+        qp, qw = np.asarray(q0.points, dtype=float), np.asarray(q0.weights, dtype=float)
+    dim = qp.shape[1]
+    vk.real(type(q0).__init__)
+    if "MINI" in name:
+        bm = vk.reals("bubble", (), near=0.1, spread=0.05)
+        el = el_cls(bubble_multiplier=bm)
+        geo = {2: E.Triangle, 3: E.Tetra}[dim]()  # the bubble node carries no geometry: straight-edged simplex
+    else:
+        el = el_cls()
+        geo = E.Tetra() if cfg["cell"] == "affine" else el
+    vk.real(type(el).gradient)
+    vk.real(type(geo).gradient)
+    if not vk.sym:
+        # native reading: the quadrature sum of every monomial up to the degree proved symbolically
+        return
+    r = ring.symarray("rr", (dim,))
+    rg = [ring.gen_of(x) for x in r]
+    with symnp.symbolic():
+        g = np.asarray(el.gradient(r), dtype=object)  # (n, dim)
+        gg = np.asarray(geo.gradient(r), dtype=object)
+    pts, wts = ring.lift(qp), ring.lift(qw)
+    exact_tables = name not in FLOAT_TABLES_C09
+    imono = gencell._int_mono_cube if domain == "cube" else gencell._int_mono_simplex
+    if domain == "simplex":
+        # simplex rules are exact for a polynomial SPACE, not monomial by monomial on products (symmetric rules integrate
+        # some higher-order combinations by cancellation): state exactly what is needed.  B_a,j = sum_i dh_a/dxi_i adj(J)_ij is
+        # a polynomial in the node coordinates X; its coefficients are  T_ab = dh_a/dxi_0 dg_b/dxi_1 - dh_a/dxi_1 dg_b/dxi_0
+        # (2D, coefficient of X_b,k) and  T_abc = det(dh_a/dxi, dg_b/dxi, dg_c/dxi), b < c  (3D, coefficient of
+        # X_b,k X_c,l; antisymmetric in b, c): the rule must integrate each of them exactly (necessary and sufficient)
+        ng = len(gg)
+        polys = {}
+        for a in range(len(g)):
+            if dim == 2:
+                for b in range(ng):
+                    polys[f"T[{a},{b}]"] = co(g[a, 0]) * co(gg[b, 1]) - co(g[a, 1]) * co(gg[b, 0])
+            else:
+                for b in range(ng):
+                    for c in range(b + 1, ng):
+                        M3 = np.array([[co(x) for x in g[a]], [co(x) for x in gg[b]], [co(x) for x in gg[c]]], dtype=object)
+                        polys[f"T[{a},{b},{c}]"] = co(det_ref(M3))
+        names, lhs, rhs = [], [], []
+        for k, T in polys.items():
+            acc = LP()
+            for qi in range(len(qw)):
+                acc = acc + co(wts[qi]) * ring.evalat(T, {r[d]: pts[qi, d] for d in range(dim)})
+            names.append(k)
+            lhs.append(acc)
+            rhs.append(gencell.integrate_ref(T, list(r), domain))
+        vk.ensures_true("the coefficient polynomials are not all zero", any(co(T).t for T in polys.values()), f"{len(polys)} coefficient polynomials of the integrated gradient", backend="ground")
+        for k, a_, b_ in zip(names, lhs, rhs):
+            T = polys[k]
+            if "MINI" in name:  # the bubble multiplier stays symbolic: identity in the multiplier
+                vk.ensures_eq(f"L2x/default rule integrates the coefficient {k} of the integrated gradient exactly", np.array(a_), np.array(b_), tol=None if exact_tables else 1e-12)
+                continue
+            native = lambda T=T: float(sum(float(qw[qi]) * ring.tofloat(T, {rg[d]: float(qp[qi, d]) for d in range(dim)}) for qi in range(len(qw))))  # noqa: E731
+            _ground(vk, f"L2x/default rule integrates the coefficient {k} of the integrated gradient exactly", a_, b_, cfg, native)
+    else:
+        # tensor-product Gauss rules are exact monomial by monomial up to their degree per axis: every xi-monomial that can
+        # occur in a product of one shape-function derivative per reference axis (a superset of the monomials of B_a,j)
+        Eg = [_exponents(g[:, i], rg) for i in range(dim)]
+        Egg = [_exponents(gg[:, i], rg) for i in range(dim)]
+        S = set()
+        for perm in itertools.permutations(range(dim)):
+            i, rest = perm[0], perm[1:]
+            for e0 in Eg[i]:
+                for combo in itertools.product(*[Egg[m] for m in rest]):
+                    S.add(tuple(sum(x) for x in zip(e0, *combo)))
+        S = sorted(S)
+        vk.ensures_true("the monomial set is not empty", len(S) > 0, f"{len(S)} monomials, maximal degree per axis {tuple(max(e[k] for e in S) for k in range(dim))}", backend="ground")
+        for e in S:
+            acc = LP()
+            for qi in range(len(qw)):
+                t = co(wts[qi])
+                for k in range(dim):
+                    if e[k]:
+                        t = t * co(pts[qi, k]) ** e[k]
+                acc = acc + t
+            native = lambda e=e: float(np.sum(qw * np.prod(qp ** np.array(e), axis=1)))  # noqa: E731
+            _ground(vk, "L2x/default rule integrates xi^" + "".join(map(str, e)) + " exactly", acc, LP.const(imono(e)), cfg, native)
+    # vacuity: the first even power of xi_0 the rule does NOT integrate must be refuted
+    for pw in range(2, 16, 2):
+        e = (pw,) + (0,) * (dim - 1)
+        val = sum(float(qw[qi]) * float(qp[qi, 0]) ** pw for qi in range(len(qw)))
+        if abs(val - float(imono(e))) > 1e-6:
+            acc = LP()
+            for qi in range(len(qw)):
+                acc = acc + co(wts[qi]) * co(pts[qi, 0]) ** pw
+            vk.canary(f"rule integrates xi_0^{pw}", np.array([acc], dtype=object), np.array([LP.const(imono(e))], dtype=object))
+            break
+    vk.note("C09 L2x: exactness is proved monomial by monomial for every product of one shape-function derivative per reference axis (a superset of the monomials of dh_a/dxi.adj(J)): sufficient for exact integration of the integrated gradient on every cell of the family; Gauss-Legendre tables in tolerance form (A1)")
 
 
 def _patch(vk, kind):
